@@ -172,7 +172,9 @@ func (h *HttpServer) readHTTPBody(r *http.Request) ([]byte, error) {
 		decompressedCap := h.maxDecompressedBodySize
 		if requestCapApplied && (decompressedCap <= 0 || limit < decompressedCap) {
 			decompressedCap = limit
-		} else if decompressedCap <= 0 && limit > 0 {
+		} else if decompressedCap == 0 && limit > 0 {
+			// Derived default. A negative value disables the cap (see
+			// SetMaxDecompressedBodySize) and must not be re-derived.
 			decompressedCap = limit * 16
 		}
 		return decompressBounded(encoding, body, decompressedCap)
